@@ -5,8 +5,12 @@ permits (output object equal to an input object or not), leaves in the output ob
 the pure model of `Impl/Limbs.lean` on the operands' limbs, changes no other object (except the documented
 temporaries), and returns the same carry / borrow / shifted-out word.  Alias independence (`run aliased = run
 distinct`) is a corollary; the contracts of C02 (`Proofs/LimbsProofs.lean`) therefore hold for in-place calls.
+The general shifts (`shift_left` / `shift_right`, any amount) have no pure model in `Impl/Limbs.lean`; theirs is
+`shiftLeftF` / `shiftRightF` of `Impl/LimbsMem.lean`, and the last section proves what these compute
+(`a · 2^amt mod B^n`, `⌊a / 2^amt⌋`).
 -/
 import JediVerif.Impl.LimbsMem
+import JediVerif.Proofs.LimbsProofs
 
 namespace Jedi.Impl.Mem
 
@@ -402,7 +406,7 @@ theorem shlLoop_spec (w wo bo res a : Nat) : ∀ k s,
 
 theorem zeroLow_spec (res : Nat) : ∀ k i s o j,
     zeroLow res i k s o j = if o = res ∧ i ≤ j ∧ j < i + k then 0 else s o j
-  | 0, i, s, o, j => by simp [zeroLow]; omega
+  | 0, i, s, o, j => by rw [zeroLow, if_neg (by omega)]
   | k + 1, i, s, o, j => by
     simp only [zeroLow]
     rw [zeroLow_spec res k (i + 1) _ o j, wr_apply]
@@ -1090,5 +1094,223 @@ example :
 /-- in-place Montgomery multiplication modulo 4093 = [13,15,15] (inv = 11), `this == &a == &b`, `tmp` = object 5 -/
 example : obj (fpMul 16 3 1 1 1 3 11 5 (put (put (fill 10) 1 [5, 11, 5]) 3 [13, 15, 15])) 1 3
     = Impl.fpMul 16 3 [5, 11, 5] [5, 11, 5] [13, 15, 15] 11 := by decide
+
+/-! ### What the general shifts compute (value level; there is no statement about them in C02)
+
+Word width `w > 0`, `B = 2^w`, `a` well-formed with `n` words: `shiftRightF` is `⌊a / 2^amt⌋` and `shiftLeftF` is
+`a · 2^amt mod B^n`, for EVERY `amt` — hence, with `shiftRight_spec` / `shiftLeft_spec`, so are the C++ loops, in place or
+not. -/
+
+theorem getD_of_ge (l : List Nat) (i : Nat) (h : l.length ≤ i) : l.getD i 0 = 0 := by
+  simp [List.getD_eq_getElem?_getD, List.getElem?_eq_none h]
+
+theorem getD_of_lt (l : List Nat) (i : Nat) (h : i < l.length) : l.getD i 0 = l[i] := by
+  simp [List.getD_eq_getElem?_getD, h]
+
+theorem val_testBit {w : Nat} (hw : 0 < w) : ∀ (l : List Nat), WF (2 ^ w) l → ∀ i,
+    (val (2 ^ w) l).testBit i = (l.getD (i / w) 0).testBit (i % w)
+  | [], _, i => by simp
+  | x :: xs, h, i => by
+    have hx := (WF_cons.1 h).1
+    have hxs := (WF_cons.1 h).2
+    rw [val_cons, Nat.add_comm, Nat.testBit_two_pow_mul_add _ hx]
+    by_cases hi : i < w
+    · rw [if_pos hi, Nat.div_eq_of_lt hi, Nat.mod_eq_of_lt hi]; rfl
+    · have hi' : w ≤ i := Nat.le_of_not_lt hi
+      have h1 : i / w = (i - w) / w + 1 := Nat.div_eq_sub_div hw hi'
+      have h2 : i % w = (i - w) % w := Nat.mod_eq_sub_mod hi'
+      rw [if_neg hi, val_testBit hw xs hxs (i - w), h1, h2, List.getD_cons_succ]
+
+theorem getD_map_range (g : Nat → Nat) (n j : Nat) :
+    ((List.range n).map g).getD j 0 = if j < n then g j else 0 := by
+  by_cases h : j < n
+  · rw [if_pos h, getD_of_lt _ _ (by simpa using h)]; simp
+  · rw [if_neg h, getD_of_ge _ _ (by simpa using h)]
+
+theorem WF_map_range {B : Nat} (g : Nat → Nat) (n : Nat) (h : ∀ j, j < n → g j < B) : WF B ((List.range n).map g) := by
+  intro x hx
+  obtain ⟨j, hj, rfl⟩ := List.mem_map.1 hx
+  exact h j (List.mem_range.1 hj)
+
+theorem getD_lt_of_WF {B : Nat} (hB : 0 < B) {l : List Nat} (h : WF B l) (i : Nat) : l.getD i 0 < B := by
+  by_cases hi : i < l.length
+  · rw [getD_of_lt _ _ hi]; exact h _ (List.getElem_mem hi)
+  · rw [getD_of_ge _ _ (by omega)]; exact hB
+
+theorem shlw_testBit (w x t k : Nat) : (shlw w x t).testBit k = (decide (k < w) && (decide (t ≤ k) && x.testBit (k - t))) := by
+  rw [shlw, Nat.testBit_mod_two_pow, Nat.testBit_mul_two_pow]
+
+theorem shlw_lt (w x t : Nat) : shlw w x t < 2 ^ w := Nat.mod_lt _ (Nat.pos_of_ne_zero (by simp))
+
+theorem shrWord_testBit {w n wo bo : Nat} {f : Nat → Nat} (hbo : bo < w) (hf : ∀ i, f i < 2 ^ w) (hn : f n = 0)
+    {j k : Nat} (hk : k < w) :
+    (shrWord w n wo bo f j).testBit k =
+      if bo + k < w then (f (j + wo)).testBit (k + bo) else (f (j + wo + 1)).testBit (bo + k - w) := by
+  rw [shrWord, Nat.testBit_or, Nat.testBit_div_two_pow]
+  have hX : (if j + wo + 1 ≠ n then shlw w (shlw w (f (j + wo + 1)) (w - bo - 1)) 1 else 0).testBit k
+      = (decide (w ≤ bo + k) && (f (j + wo + 1)).testBit (bo + k - w)) := by
+    by_cases h : j + wo + 1 ≠ n
+    · rw [if_pos h, shlw_testBit, shlw_testBit]
+      by_cases h1 : w ≤ bo + k
+      · have e : k - 1 - (w - bo - 1) = bo + k - w := by omega
+        simp [hk, h1, e, show 1 ≤ k by omega, show k - 1 < w by omega, show w - bo - 1 ≤ k - 1 by omega]
+      · have : ¬ (1 ≤ k ∧ w - bo - 1 ≤ k - 1) := by omega
+        by_cases h2 : 1 ≤ k
+        · simp [hk, h1, h2, show ¬ (w - bo - 1 ≤ k - 1) by omega]
+        · simp [hk, h1, h2]
+    · rw [if_neg h, Nat.zero_testBit]
+      have : j + wo + 1 = n := by omega
+      rw [this, hn, Nat.zero_testBit]; simp
+  rw [hX]
+  by_cases h1 : bo + k < w
+  · simp [h1, show ¬ (w ≤ bo + k) by omega]
+  · have hlt : f (j + wo) < 2 ^ (k + bo) :=
+      Nat.lt_of_lt_of_le (hf _) (Nat.pow_le_pow_right (by omega) (by omega : w ≤ k + bo))
+    rw [if_neg h1, Nat.testBit_lt_two_pow hlt]
+    simp [show w ≤ bo + k by omega]
+
+/-- `shiftRightF` is the integer shift: `⌊a / 2^amt⌋` (and the limbs are well-formed). -/
+theorem shiftRightF_val {w : Nat} (hw : 0 < w) {a : List Nat} (ha : WF (2 ^ w) a) (amt : Nat) :
+    WF (2 ^ w) (shiftRightF w a amt).1 ∧ (shiftRightF w a amt).1.length = a.length ∧
+    val (2 ^ w) (shiftRightF w a amt).1 = val (2 ^ w) a / 2 ^ amt := by
+  have hB : 0 < 2 ^ w := Nat.pos_of_ne_zero (by simp)
+  have hf : ∀ i, a.getD i 0 < 2 ^ w := getD_lt_of_WF hB ha
+  have hbo : amt % w < w := Nat.mod_lt _ hw
+  have hwf : WF (2 ^ w) (shiftRightF w a amt).1 := by
+    apply WF_map_range
+    intro j _
+    by_cases h : a.length ≤ j + amt / w
+    · rw [if_pos h]; exact hB
+    · rw [if_neg h, shrWord]
+      apply Nat.or_lt_two_pow
+      · by_cases h' : j + amt / w + 1 ≠ a.length
+        · rw [if_pos h']; exact shlw_lt _ _ _
+        · rw [if_neg h']; exact hB
+      · exact Nat.lt_of_le_of_lt (Nat.div_le_self _ _) (hf _)
+  refine ⟨hwf, by simp [shiftRightF], ?_⟩
+  apply Nat.eq_of_testBit_eq
+  intro i
+  rw [val_testBit hw _ hwf, Nat.testBit_div_two_pow, val_testBit hw _ ha]
+  simp only [shiftRightF]
+  rw [getD_map_range]
+  generalize hwo : amt / w = wo
+  generalize hbo' : amt % w = bo at hbo
+  have hamt : amt = w * wo + bo := by rw [← hwo, ← hbo', Nat.div_add_mod]
+  generalize hj : i / w = j
+  generalize hk : i % w = k
+  have hkw : k < w := by rw [← hk]; exact Nat.mod_lt _ hw
+  have hi : i = w * j + k := by rw [← hj, ← hk, Nat.div_add_mod]
+  have hnz : a.getD a.length 0 = 0 := getD_of_ge _ _ (by omega)
+  by_cases hlow : bo + k < w
+  · have e1 : (i + amt) / w = j + wo := by
+      rw [hi, hamt, show w * j + k + (w * wo + bo) = bo + k + w * (j + wo) by rw [Nat.mul_add]; omega,
+        Nat.add_mul_div_left _ _ hw, Nat.div_eq_of_lt hlow, Nat.zero_add]
+    have e2 : (i + amt) % w = k + bo := by
+      rw [hi, hamt, show w * j + k + (w * wo + bo) = bo + k + w * (j + wo) by rw [Nat.mul_add]; omega,
+        Nat.add_mul_mod_self_left, Nat.mod_eq_of_lt hlow, Nat.add_comm]
+    rw [e1, e2]
+    by_cases h1 : j < a.length
+    · rw [if_pos h1]
+      by_cases h2 : a.length ≤ j + wo
+      · rw [if_pos h2, Nat.zero_testBit, getD_of_ge _ _ h2, Nat.zero_testBit]
+      · rw [if_neg h2, shrWord_testBit hbo hf hnz hkw, if_pos hlow]
+    · rw [if_neg h1, Nat.zero_testBit, getD_of_ge _ _ (by omega), Nat.zero_testBit]
+  · have e1 : (i + amt) / w = j + wo + 1 := by
+      rw [hi, hamt, show w * j + k + (w * wo + bo) = (bo + k - w) + w * (j + wo + 1) by
+        rw [Nat.mul_add, Nat.mul_add, Nat.mul_one]; omega,
+        Nat.add_mul_div_left _ _ hw, Nat.div_eq_of_lt (by omega), Nat.zero_add]
+    have e2 : (i + amt) % w = bo + k - w := by
+      rw [hi, hamt, show w * j + k + (w * wo + bo) = (bo + k - w) + w * (j + wo + 1) by
+        rw [Nat.mul_add, Nat.mul_add, Nat.mul_one]; omega,
+        Nat.add_mul_mod_self_left, Nat.mod_eq_of_lt (by omega)]
+    rw [e1, e2]
+    by_cases h1 : j < a.length
+    · rw [if_pos h1]
+      by_cases h2 : a.length ≤ j + wo
+      · rw [if_pos h2, Nat.zero_testBit, getD_of_ge _ _ (by omega), Nat.zero_testBit]
+      · rw [if_neg h2, shrWord_testBit hbo hf hnz hkw, if_neg hlow]
+    · rw [if_neg h1, Nat.zero_testBit, getD_of_ge _ _ (by omega), Nat.zero_testBit]
+
+
+theorem shlWord_testBit {w bo : Nat} {f : Nat → Nat} (hbo : bo < w) (hf : ∀ i, f i < 2 ^ w) {t k : Nat} (hk : k < w) :
+    (shlWord w bo f t).testBit k =
+      if bo ≤ k then (f t).testBit (k - bo) else (decide (t ≠ 0) && (f (t - 1)).testBit (k + w - bo)) := by
+  rw [shlWord, Nat.testBit_or, shlw_testBit]
+  have hY : (if t ≠ 0 then f (t - 1) / 2 ^ (w - bo - 1) / 2 else 0).testBit k
+      = (decide (t ≠ 0) && (f (t - 1)).testBit (k + w - bo)) := by
+    by_cases h : t ≠ 0
+    · rw [if_pos h, Nat.testBit_div_two, Nat.testBit_div_two_pow, show k + 1 + (w - bo - 1) = k + w - bo by omega]
+      simp [h]
+    · rw [if_neg h, Nat.zero_testBit]; simp [h]
+  rw [hY]
+  by_cases h1 : bo ≤ k
+  · have hlt : f (t - 1) < 2 ^ (k + w - bo) :=
+      Nat.lt_of_lt_of_le (hf _) (Nat.pow_le_pow_right (by omega) (by omega : w ≤ k + w - bo))
+    rw [if_pos h1, Nat.testBit_lt_two_pow hlt]
+    simp [hk, h1]
+  · rw [if_neg h1]
+    simp [h1]
+
+/-- `shiftLeftF` is the integer shift modulo the width: `a · 2^amt mod B^n` (and the limbs are well-formed). -/
+theorem shiftLeftF_val {w : Nat} (hw : 0 < w) {a : List Nat} (ha : WF (2 ^ w) a) (amt : Nat) :
+    WF (2 ^ w) (shiftLeftF w a amt).1 ∧ (shiftLeftF w a amt).1.length = a.length ∧
+    val (2 ^ w) (shiftLeftF w a amt).1 = (val (2 ^ w) a * 2 ^ amt) % (2 ^ w) ^ a.length := by
+  have hB : 0 < 2 ^ w := Nat.pos_of_ne_zero (by simp)
+  have hf : ∀ i, a.getD i 0 < 2 ^ w := getD_lt_of_WF hB ha
+  have hbo : amt % w < w := Nat.mod_lt _ hw
+  have hwf : WF (2 ^ w) (shiftLeftF w a amt).1 := by
+    apply WF_map_range
+    intro j _
+    by_cases h : j < amt / w
+    · rw [if_pos h]; exact hB
+    · rw [if_neg h, shlWord]
+      apply Nat.or_lt_two_pow (shlw_lt _ _ _)
+      by_cases h' : j - amt / w ≠ 0
+      · rw [if_pos h']
+        exact Nat.lt_of_le_of_lt (Nat.div_le_self _ _) (Nat.lt_of_le_of_lt (Nat.div_le_self _ _) (hf _))
+      · rw [if_neg h']; exact hB
+  refine ⟨hwf, by simp [shiftLeftF], ?_⟩
+  apply Nat.eq_of_testBit_eq
+  intro i
+  rw [val_testBit hw _ hwf, ← Nat.pow_mul, Nat.testBit_mod_two_pow, Nat.testBit_mul_two_pow, val_testBit hw _ ha]
+  simp only [shiftLeftF]
+  rw [getD_map_range]
+  generalize hwo : amt / w = wo
+  generalize hbo' : amt % w = bo at hbo
+  have hamt : amt = w * wo + bo := by rw [← hwo, ← hbo', Nat.div_add_mod]
+  generalize hj : i / w = j
+  generalize hk : i % w = k
+  have hkw : k < w := by rw [← hk]; exact Nat.mod_lt _ hw
+  have hi : i = w * j + k := by rw [← hj, ← hk, Nat.div_add_mod]
+  generalize hn : a.length = n
+  by_cases h1 : j < n
+  · obtain ⟨e, rfl⟩ : ∃ e, n = j + 1 + e := ⟨n - j - 1, by omega⟩
+    have hin : i < w * (j + 1 + e) := by rw [hi, Nat.mul_add, Nat.mul_add, Nat.mul_one]; omega
+    rw [if_pos h1]
+    by_cases h2 : j < wo
+    · obtain ⟨d, rfl⟩ : ∃ d, wo = j + 1 + d := ⟨wo - j - 1, by omega⟩
+      have : ¬ amt ≤ i := by rw [hi, hamt, Nat.mul_add, Nat.mul_add, Nat.mul_one]; omega
+      rw [if_pos h2, Nat.zero_testBit]; simp [this]
+    · obtain ⟨t, rfl⟩ : ∃ t, j = wo + t := ⟨j - wo, by omega⟩
+      rw [if_neg h2, Nat.add_sub_cancel_left, shlWord_testBit hbo hf hkw]
+      by_cases h3 : bo ≤ k
+      · have hle : amt ≤ i := by rw [hi, hamt, Nat.mul_add]; omega
+        have hsub : i - amt = w * t + (k - bo) := by rw [hi, hamt, Nat.mul_add]; omega
+        rw [if_pos h3, hsub, Nat.mul_add_div hw, Nat.mul_add_mod, Nat.div_eq_of_lt (by omega), Nat.mod_eq_of_lt (by omega)]
+        simp [hin, hle]
+      · rw [if_neg h3]
+        by_cases h4 : t = 0
+        · have hz : w * t = 0 := by rw [h4]; rfl
+          have : ¬ amt ≤ i := by rw [hi, hamt, Nat.mul_add, hz]; omega
+          simp [this, h4]
+        · obtain ⟨t, rfl⟩ : ∃ t', t = t' + 1 := ⟨t - 1, by omega⟩
+          have hle : amt ≤ i := by rw [hi, hamt, Nat.mul_add, Nat.mul_add, Nat.mul_one]; omega
+          have hsub : i - amt = w * t + (k + w - bo) := by
+            rw [hi, hamt, Nat.mul_add, Nat.mul_add, Nat.mul_one]; omega
+          rw [hsub, Nat.mul_add_div hw, Nat.mul_add_mod, Nat.div_eq_of_lt (by omega), Nat.mod_eq_of_lt (by omega)]
+          simp [hin, hle]
+  · obtain ⟨e, rfl⟩ : ∃ e, j = n + e := ⟨j - n, by omega⟩
+    have : ¬ i < w * n := by rw [hi, Nat.mul_add]; omega
+    rw [if_neg h1, Nat.zero_testBit]; simp [this]
 
 end Jedi.Impl.Mem
